@@ -18,7 +18,29 @@ Never counted as proved.  Two observation points, as fixed by the property:
 Metamorphic clauses: self-match (best score attained at offset 0 / full overlap), reverse-
 complemented targets only flip the reported strand.
 
-Not asserted (statement silent): which of several equally scoring alignments / strands is reported.
+Argument combinations (the property quantifies over configurations; every one of them is compared
+with the same reference): n_cache left at its default, raised to n_score_bins, set to exactly the
+largest offset of the call (boundary offset == n_cache, the smallest value tomtom accepts without
+complaint) or well above it; n_median_bins 50 / 200 / 999 / 1000 / 5000 (the harness' kernel call
+gets the same value, so the unaligned-column score is the median as binned by the real code);
+n_target_bins None / 2 / 37 / 100 / 1000 (always verified injective); queries and / or targets given as
+torch tensors; n_jobs 1 or 2; n_nearest = k (every reported (query, idx) row must be the verified cell
+of the full matrix - the ordering / selection of the k rows is C13's business and not asserted here).
+
+Shape grid: queries of every length 1..L against target sets whose lengths are exactly 1..t_max, for
+every t_max - every triple (query length, target length, longest target of the call) with its
+neighbours nq == nt, nq == nt +- 1, nq >= t_max + 2, nq < every target; the null background of a
+target length depends on all three.
+
+Not asserted (statement silent): which of several equally scoring alignments / strands is reported;
+which k targets n_nearest selects and in what order.
+
+Not exercised: float32 inputs (each dtype costs a further ~30 s numba compilation of the parallel
+kernel per process); n_jobs=-1 (all cores of a shared machine).
+
+Observation kept out of the assertions (undefined behaviour, not a deterministic wrong value): with
+hashing, _p_values sizes t_sums by the number of UNIQUE pooled columns, so a target longer than that
+writes a few int16 past the end of the scratch array.
 """
 import math
 
@@ -30,15 +52,22 @@ from tangermeme.tools.tomtom import tomtom
 
 SCOPE = {
     'quick': 'one-hot queries (all of length 1, 6 of length 2, 6 of length 3, co-processed in groups of 4) against 6 fixed '
-             'one-hot target sets, rc on/off, n_score_bins in {20,100,127,200}; up to 1000 seeded random query/target sets '
-             '(time permitting): 1-4 queries and 2-5 targets of length 1-25 (shorter / equal / longer), PWM columns on grids 1/1 '
-             '(one-hot), 1/2, 1/4, 1/10, 1/20 and continuous Dirichlet, optionally drawn from a pool of 3-6 columns, '
-             'n_score_bins in {10,25,50,100,127,128,150,200} (n_cache raised to n_score_bins when > 100 so that offset <= '
-             'n_cache), rc on/off, hashing off or 100 bins verified injective; a quarter of the sets contain the queries as '
-             'targets (self-match); every third set also as rc-target metamorphic pair; every (query, target, strand) cell '
-             'and every merged cell is compared',
-    'thorough': 'same families; all 84 one-hot queries of length 1-3 against 12 fixed target sets; random sets until the time '
-                'budget (a few thousand), up to 6 queries x 8 targets, n_score_bins uniformly from 10..200 in half of the sets',
+             'one-hot target sets, rc on/off, n_score_bins in {20,100,127,200}; shape grid: queries of all lengths 1..8 in one '
+             'call against targets of lengths exactly 1..t_max for every t_max 1..9, rc on/off (n_cache default or exactly the '
+             'largest offset); up to 1300 seeded random query/target sets (time permitting): 1-4 (5%: 6-10) queries and 1-5 '
+             'targets of length 1-25 (styles short / mixed / long / every target at least 2 shorter than some query / every '
+             'query shorter than every target / all lengths equal), PWM columns on grids 1/1 (one-hot), 1/2, 1/4, 1/10, 1/20 '
+             'and continuous Dirichlet, optionally drawn from a pool of 3-6 columns, n_score_bins in '
+             '{10,25,50,100,127,128,150,200} or (20%) uniform in 10..200, n_cache default / n_score_bins (when > 100) / '
+             'exactly the largest offset / largest offset + 157, n_median_bins 1000 or (20%) 50 / 200 / 999 / 5000, rc on/off, '
+             'hashing off or 2 / 37 / 100 / 1000 bins verified injective, inputs as numpy arrays or (15%) torch tensors '
+             '(queries, targets or both), n_jobs 1 or (6% of multi-query sets) 2, (15%) additionally n_nearest = k with every '
+             'reported row compared with the verified full-matrix cell; a quarter of the sets contain the queries as targets '
+             '(self-match); every third set also as rc-target metamorphic pair; every (query, target, strand) cell and every '
+             'merged cell is compared',
+    'thorough': 'same families; all 84 one-hot queries of length 1-3 against 12 fixed target sets; shape grid with query lengths '
+                '1..12 and t_max 1..14 on two PWM grids; random sets until the time budget (a few thousand), up to 6 (5%: 12) '
+                'queries x 8 targets, n_score_bins uniformly from 10..200 in half of the sets',
 }
 
 ALPH = 'ACGT'
@@ -167,7 +196,11 @@ def kernel(Qs, iq, U, counts, n_score_bins, n_median_bins=1000):
         cs = numpy.cumsum(counts[asc])
         lo = asc[numpy.searchsorted(cs, tot / 2.0, side='left')]
         hi = asc[min(numpy.searchsorted(cs, tot / 2.0, side='right'), nu - 1)]
-        if not (x[lo, i] - 1 <= off <= x[hi, i] + 1):
+        # the binned median is the mean of the values that share the median's bin: it is within one
+        # median-bin width of the median element, i.e. within n_score_bins / (n_median_bins - 1)
+        # integer units (plus rounding)
+        mtol = 1 + n_score_bins // max(1, n_median_bins - 1)
+        if not (x[lo, i] - mtol <= off <= x[hi, i] + mtol):
             out.append(('kernel-median', 'query column %d: score of an unaligned column %d is not the integerised median (%d..%d)'
                         % (i, off, x[lo, i], x[hi, i])))
     return x, off, f, gamma, out
@@ -237,13 +270,36 @@ def classify(x, off, best_scores, n_score_bins):
     return None
 
 
-def _call(Qs, Ts, case, **extra):
+def _call(Qs, Ts, case, n_cache=None, **extra):
     kw = dict(n_score_bins=case['n_score_bins'], n_target_bins=case.get('n_target_bins'),
               reverse_complement=case['rc'], n_jobs=case.get('n_jobs', 1))
-    if case['n_score_bins'] > 100:
+    if n_cache is not None:
+        kw['n_cache'] = int(n_cache)
+    elif case['n_score_bins'] > 100:
         kw['n_cache'] = case['n_score_bins']          # offset <= n_score_bins always; keep offset <= n_cache
+    if 'n_median_bins' in case:
+        kw['n_median_bins'] = case['n_median_bins']
     kw.update(extra)
-    return tomtom(Qs, Ts, **kw).numpy()
+    tens = case.get('tensor') or ''
+    if 'Q' in tens:
+        Qs = [torch.from_numpy(numpy.ascontiguousarray(q)) for q in Qs]
+    if 'T' in tens:
+        Ts = [torch.from_numpy(numpy.ascontiguousarray(t)) for t in Ts]
+    R = tomtom(Qs, Ts, **kw)
+    if not isinstance(R, torch.Tensor):
+        raise TypeError('tomtom returned %s, not a tensor' % type(R).__name__)
+    return R.numpy()
+
+
+def _n_cache(case, offs):
+    """n_cache_mode 'tight': exactly the largest offset of the call (tomtom complains only when
+    offset > n_cache); 'wide': well above it; absent: tomtom's default (n_score_bins when > 100)"""
+    mode = case.get('n_cache_mode')
+    if mode == 'tight':
+        return max(offs)
+    if mode == 'wide':
+        return max(offs) + 157
+    return None
 
 
 def check_ref(case):
@@ -263,19 +319,29 @@ def _check_ref(case):
     if degenerate(Qs, U):
         return [], {'skipped': 'degenerate'}
     out = []
+    nmb = case.get('n_median_bins', 1000)
+    n_t = len(Ts)
     try:
+        # (K) first: the offsets are needed to choose n_cache on the boundary
+        kers = [kernel(Qs, iq, U, counts, nb, nmb) for iq in range(len(Qs))]
+        n_cache = _n_cache(case, [k[1] for k in kers])
         # single-strand cells: with rc the same pooled columns are obtained by passing both strands
         # as explicit targets
-        S = _call(Qs, Ts2, case, reverse_complement=False)
-        M = _call(Qs, Ts, case) if rc else None
+        S = _call(Qs, Ts2, case, n_cache, reverse_complement=False)
+        M = _call(Qs, Ts, case, n_cache) if rc else None
+        N = _call(Qs, Ts, case, n_cache, n_nearest=min(case['n_nearest'], n_t)) if case.get('n_nearest') else None
     except ZeroDivisionError:
         return [], {'skipped': 'ZeroDivisionError'}
-    n_t = len(Ts)
+    except Exception as e:                                 # the statement gives a value for every pair in the quantifier
+        return [('call-raised', 'tomtom raised %s: %s' % (type(e).__name__, str(e)[:200]))], {}
+    want = (5, len(Qs), len(Ts2))
+    if S.shape != want or (M is not None and M.shape != (5, len(Qs), n_t)):
+        return [('result-shape', 'result shape %s / %s for %d queries, %d targets' % (S.shape, None if M is None else M.shape, len(Qs), n_t))], {}
     starts = numpy.concatenate([[0], numpy.cumsum([T.shape[1] for T in Ts2])])
     stats = {'max_p_err': 0.0, 'cells': 0, 'ties': 0, 'classes': set()}
     for iq, Q in enumerate(Qs):
         nq = Q.shape[1]
-        x, off, f, gamma, kv = kernel(Qs, iq, U, counts, nb)
+        x, off, f, gamma, kv = kers[iq]
         for k, m in kv:
             out.append((k, 'query %d: %s' % (iq, m)))
         if any(k == 'kernel-range' for k, _ in kv):
@@ -339,7 +405,29 @@ def _check_ref(case):
                 al = align_scores(xfull[starts[s]:starts[s + 1]], nq, off)
                 if m[1] == bests[s] and not (m[2] == int(m[2]) and int(m[2]) in al and al[int(m[2])] == (bests[s], int(m[3])) and m[3] == int(m[3])):
                     out.append((cls or 'strand-merge-mismatch', '%s: offset %r / overlap %r do not attain the score on the reported strand' % (tag, float(m[2]), float(m[3]))))
+    if N is not None:
+        out.extend(_check_nearest(N, M if rc else S, min(case['n_nearest'], n_t), len(Qs), n_t))
     return out, stats
+
+
+def _check_nearest(N, F, k, n_q, n_t):
+    """n_nearest=k: every reported (query, idx) row carries the values of that pair, i.e. of the cell
+    of the full matrix F (which is compared with the reference cell by cell).  Which k targets are
+    selected and their order is not asserted here."""
+    if N.shape != (6, n_q, k):
+        return [('nearest-row-mismatch', 'n_nearest=%d: result shape %s for %d queries' % (k, N.shape, n_q))]
+    out = []
+    for iq in range(n_q):
+        idx = N[5, iq]
+        if not (numpy.all(idx == numpy.floor(idx)) and idx.min() >= 0 and idx.max() < n_t and len(set(idx.tolist())) == k):
+            out.append(('nearest-row-mismatch', 'query %d, n_nearest=%d of %d: target indices %s' % (iq, k, n_t, idx.tolist())))
+            continue
+        for r in range(k):
+            a, b = N[:5, iq, r], F[:, iq, int(idx[r])]
+            if not (numpy.array_equal(a[1:], b[1:]) and abs(float(a[0]) - float(b[0])) <= P_ATOL + P_RTOL * float(b[0])):
+                out.append(('nearest-row-mismatch', 'query %d, n_nearest=%d: row %d (target %d) is %s, the pair gives %s'
+                            % (iq, k, r, int(idx[r]), a.tolist(), b.tolist())))
+    return out
 
 
 def check_rcmeta(case):
@@ -354,7 +442,9 @@ def _check_rcmeta(case):
     Qs, Ts = mats(case['Q']), mats(case['T'])
     Tr = [_rc(T) for T in Ts]
     c = dict(case, rc=True)
-    nb = case['n_score_bins']
+    c.pop('n_nearest', None)
+    c.pop('n_cache_mode', None)
+    nb, nmb = case['n_score_bins'], case.get('n_median_bins', 1000)
     pl, plr = pooled(Ts, True, case.get('n_target_bins')), pooled(Tr, True, case.get('n_target_bins'))
     if pl is None or plr is None or degenerate(Qs, pl[1]):
         return [], {'skipped': True}
@@ -366,8 +456,8 @@ def _check_rcmeta(case):
     starts = numpy.concatenate([[0], numpy.cumsum([T.shape[1] for T in pl[0]])])
     for iq in range(len(Qs)):
         nq = Qs[iq].shape[1]
-        xa, offa, _, _, _ = kernel(Qs, iq, pl[1], pl[2], nb)
-        xb, offb, _, _, _ = kernel(Qs, iq, plr[1], plr[2], nb)
+        xa, offa, _, _, _ = kernel(Qs, iq, pl[1], pl[2], nb, nmb)
+        xb, offb, _, _, _ = kernel(Qs, iq, plr[1], plr[2], nb, nmb)
         fa, fb = xa[pl[3]], xb[plr[3]]
         half = fa.shape[0] // 2
         if offa != offb or not numpy.array_equal(fa, numpy.concatenate([fb[half:], fb[:half]])):
@@ -451,29 +541,81 @@ def _onehot_queries(maxlen):
 def _random_case(rng, thorough):
     grid = rng.choice([0, 0, 0, 1, 2, 4, 10, 20])
     nqs = rng.randint(1, 6 if thorough else 4)
-    nts = rng.randint(2, 8 if thorough else 5)
-    style = rng.choice(['short', 'mixed', 'mixed', 'long'])
-    hi = {'short': 6, 'mixed': 14, 'long': 25}[style]
-    qlens = [rng.randint(1, hi) for _ in range(nqs)]
-    tlens = [rng.randint(1, hi) for _ in range(nts)]
-    if rng.random() < 0.3:
-        tlens[0] = qlens[0]
-    if rng.random() < 0.25:
-        qlens[0] = 1
-    if style == 'long':
-        qlens[-1] = rng.randint(20, 25)
-        tlens[-1] = rng.choice([rng.randint(1, 5), 25, rng.randint(20, 25)])
+    nts = rng.randint(1, 8 if thorough else 5)
+    style = rng.choice(['short', 'mixed', 'mixed', 'long', 'qlong', 'tlong', 'equal'])
+    if style in ('short', 'mixed') and rng.random() < 0.1:
+        nqs = rng.randint(6, 12 if thorough else 10)       # long call histories on the per-thread scratch arrays
+    if style in ('short', 'mixed', 'long'):
+        hi = {'short': 6, 'mixed': 14, 'long': 25}[style]
+        qlens = [rng.randint(1, hi) for _ in range(nqs)]
+        tlens = [rng.randint(1, hi) for _ in range(nts)]
+        if rng.random() < 0.3:
+            tlens[0] = qlens[0]
+        if rng.random() < 0.25:
+            qlens[0] = 1
+        if style == 'long':
+            qlens[-1] = rng.randint(20, 25)
+            tlens[-1] = rng.choice([rng.randint(1, 5), 25, rng.randint(20, 25)])
+    elif style == 'qlong':
+        # the longest target is at least 2 columns shorter than the last query (and than most of the others)
+        tmax = rng.randint(1, 12)
+        tlens = [rng.randint(1, tmax) for _ in range(nts)]
+        tlens[rng.randrange(nts)] = tmax
+        qlens = [rng.randint(tmax + 2, min(25, tmax + 12)) if rng.random() < 0.8 else rng.randint(1, tmax + 1) for _ in range(nqs)]
+        qlens[-1] = rng.choice([tmax + 2, tmax + 3, rng.randint(tmax + 2, 25), 25])
+    elif style == 'tlong':
+        # every query is shorter than every target
+        qmax = rng.randint(1, 10)
+        qlens = [rng.randint(1, qmax) for _ in range(nqs)]
+        tlens = [rng.choice([qmax + 1, qmax + 2, rng.randint(qmax + 1, 25), 25]) for _ in range(nts)]
+    else:
+        L = rng.choice([1, 2, 3, rng.randint(4, 24), 25])
+        qlens, tlens = [L] * nqs, [L] * max(nts, 2)
     pool = rng.choice([0, 0, 3, 6]) if grid in (0, 10, 20) else rng.choice([0, 3])
     alpha = rng.choice([0.2, 0.5, 1.0])
-    nb = rng.randint(10, 200) if (thorough and rng.random() < 0.5) else rng.choice(NBINS)
+    nb = rng.randint(10, 200) if rng.random() < (0.5 if thorough else 0.2) else rng.choice(NBINS)
+    hashing = rng.choice([None, None, 100])
+    if hashing is not None:
+        hashing = rng.choice([2, 100]) if grid == 1 else rng.choice([100, 100, 100, 1000, 37])
     case = {'kind': 'ref',
             'Q': [{'seed': rng.randrange(10 ** 9), 'lens': qlens, 'grid': grid, 'alpha': alpha, 'pool': pool}],
             'T': [{'seed': rng.randrange(10 ** 9), 'lens': tlens, 'grid': grid, 'alpha': alpha, 'pool': pool}],
             'n_score_bins': nb, 'rc': rng.random() < 0.5,
-            'n_target_bins': rng.choice([None, None, 100])}
+            'n_target_bins': hashing}
     if rng.random() < 0.25:
         case['T'] = case['Q'] + case['T']
         case['self'] = True
+    # rarely used arguments / input types; the reference is the same for all of them
+    r = rng.random()
+    if r < 0.15:
+        case['n_cache_mode'] = 'tight'
+    elif r < 0.25:
+        case['n_cache_mode'] = 'wide'
+    if rng.random() < 0.2:
+        case['n_median_bins'] = rng.choice([50, 200, 999, 5000])
+    if rng.random() < 0.15:
+        case['tensor'] = rng.choice(['Q', 'T', 'QT'])
+    if rng.random() < 0.15:
+        case['n_nearest'] = rng.randint(1, len(tlens))
+    if nqs >= 2 and rng.random() < 0.06:
+        case['n_jobs'] = 2
+    return case
+
+
+def _shape_case(rng, t_max, L, rc, k):
+    """queries of every length 1..L (shuffled) in one call against targets of lengths 1..t_max
+    (+ one more of length t_max, shuffled): all (nq, nt) with this longest target"""
+    qlens = list(range(1, L + 1))
+    tlens = list(range(1, t_max + 1)) + [t_max]
+    rng.shuffle(qlens)
+    rng.shuffle(tlens)
+    grid = (0, 4, 20, 0, 2, 10)[k % 6]
+    case = {'kind': 'ref',
+            'Q': [{'seed': rng.randrange(10 ** 9), 'lens': qlens, 'grid': grid, 'alpha': 0.5, 'pool': 0}],
+            'T': [{'seed': rng.randrange(10 ** 9), 'lens': tlens, 'grid': grid, 'alpha': 0.5, 'pool': 0}],
+            'n_score_bins': (100, 200, 25, 127, 50, 150)[(k // 2) % 6], 'rc': rc, 'n_target_bins': None}
+    if k % 3 == 1:
+        case['n_cache_mode'] = 'tight'
     return case
 
 
@@ -500,9 +642,23 @@ def run(rep):
                 n_onehot += 1
     if thorough and complete:
         rep.mark_exhaustive('all one-hot queries of length 1-3 against the 12 fixed one-hot target sets, rc on/off')
+    # --- shape grid: every (query length, target length, longest target)
+    L, TM = (12, 14) if thorough else (8, 9)
+    k, complete = 0, True
+    for rep_i in range(2 if thorough else 1):
+        for t_max in range(1, TM + 1):
+            for rc in (False, True):
+                if rep.left() < rep.budget_s * 0.4:
+                    complete = False
+                    break
+                case = _shape_case(rng, t_max, L, rc, k)
+                _record(rep, case, _check_ref(case), 'shape-grid', ('shape', rep_i, t_max, rc))
+                k += 1
+    if not complete:
+        rep.note('shape grid cut short by the time budget after %d calls' % k)
     # --- seeded random sets
     k, maxerr, classes, skipped = 0, 0.0, set(), 0
-    limit = 10 ** 9 if thorough else 1000
+    limit = 10 ** 9 if thorough else 1300
     while k < limit and rep.left() > (20 if thorough else 8):
         case = _random_case(rng, thorough)
         st = _record(rep, case, _check_ref(case), 'self' if case.get('self') else 'random', ('rnd', k))
@@ -518,7 +674,7 @@ def run(rep):
              'cells outside the three defect classes: %.3g; input classes met: %s' % (k, skipped, maxerr, sorted(classes)))
     rep.note('not exercised: n_score_bins > n_cache with the default n_cache=100 (tomtom prints "Offset is larger than n_cache" '
              'and then writes past the scratch rows; observed to abort the process with heap corruption), so n_cache is raised '
-             'to n_score_bins whenever n_score_bins > 100')
+             'to n_score_bins whenever n_score_bins > 100 (or set from the observed offsets: n_cache_mode tight / wide)')
 
 
 def replay(case):
